@@ -1,5 +1,4 @@
 SPECIFICATION Spec
 INVARIANT Conforms
-INVARIANT DriftInfo
 POSTCONDITION AcceptedLinear
 CHECK_DEADLOCK FALSE
